@@ -109,6 +109,10 @@ func vProbe10(kind int, tx, ty float64) Object {
 		return NewRect(geometry.Rect{Min: p(0, 0), Max: p(1, 1)})
 	case 4:
 		return NewGeometryCollection([]Object{NewPoint(p(0, 0)), vLineObj(p(3, 3)), vLineObj(p(1, 0), p(1, 1))})
+	case 5: // empty part last
+		return NewGeometryCollection([]Object{NewPoint(p(0, 0)), vLineObj(p(1, 0), p(1, 1)), NewPolygon(nil)})
+	case 6: // empty part first, and a feature wrapping an empty collection last
+		return NewGeometryCollection([]Object{vLineObj(p(3, 3)), NewPoint(p(0, 0)), NewFeature(NewGeometryCollection(nil), "")})
 	}
 	panic("bad probe")
 }
@@ -203,7 +207,7 @@ func H_Coll(p []int) {
 	vAssert(obj.Contains(X) == (!allEmpty && hasPart && allIn), "C10.contains")
 
 	// within (X a leaf object): non-empty and every child within X
-	if pk != 4 {
+	if pk < 4 {
 		allW := true
 		for _, c := range kids {
 			if !c.Within(X) {
